@@ -218,6 +218,8 @@ def discover_forms(tier, rec):
             if node == "BinOp":
                 second = "v" if kind == "v" else None
                 base = [("s", "s"), ("c", "c"), ("d", "d")]
+                if not second:
+                    base += [("e", "d"), ("d", "e")]      # one operand with fewer identifiers: the result is built from the other one
                 if tier == "thorough" and not second:
                     base += [("c", "s"), ("s", "c"), ("d", "s"), ("s", "d")]
                 form["levels"] = [dict(label=a + (second or b), kinds=a + (second or b), template=tmpl) for a, b in base]
